@@ -41,37 +41,26 @@ Theorem similar_insert_by_policy : similar_statement similar_insert_id.
 Proof. exact (similar_statement_holds similar_insert_id). Qed.
 Print Assumptions similar_insert_by_policy.
 
-(* ==== BLOCK A: the pinned code (cell_marker_id = MarkerIdAlways, similar_insert_id = SimIdDict).
-   These stop type-checking when the reviewed fixes notes/C04-fix-1.diff / C04-fix-2.diff are applied; then delete
-   BLOCK A, uncomment BLOCK B and remove the two entries from known_findings.d/C04.json. ==== *)
-Theorem marker_cell_valid_45 : forall w cid text, id_ok cid -> cell_valid 5 (cell_marker w cid text).
-Proof. exact marker_always_valid_5. Qed.
-Print Assumptions marker_cell_valid_45.
+(* After the repairs in /repo the positive statements hold for the regenerated source facts; reverting a repair
+   flips the fact and breaks the proofs below. *)
+(* BLOCK B of coq/Props/C04.v: paste in place of BLOCK A once the fix is applied (after the fixes (cell_marker_id = MarkerIdIffPayload, similar_insert_id = SimIdLocal)) *)
+Theorem marker_cell_valid : forall k cid text, k <= 5 -> id_ok cid -> cell_valid k (cell_marker (Nat.leb 5 k) cid text).
+Proof. exact marker_iff_valid. Qed.
+Print Assumptions marker_cell_valid.
 
-Theorem marker_cell_refuted : exists k w cid text, k < 5 /\ id_ok cid /\
-  validate (nb_defs k) F cell_schema (cell_marker w cid text) = Some false.
-Proof. exact marker_cell_refuted_always. Qed.
-Print Assumptions marker_cell_refuted.
+Theorem inline_cells_valid : forall k id0 id1 id2 base lvals rvals start lr rr,
+  k <= 5 -> id_ok id0 -> id_ok id1 -> id_ok id2 ->
+  Forall (cell_valid k) base -> Forall (cell_valid k) lvals -> Forall (cell_valid k) rvals ->
+  forallb (has_key k_id) ((lvals ++ firstn (lr - rr) (skipn start base)) ++ (rvals ++ firstn (rr - lr) (skipn start base))) = Nat.leb 5 k ->
+  Forall (cell_valid k) (make_inline_cell_conflict (id0, id1, id2) base lvals rvals start lr rr).
+Proof. exact inline_cells_valid_iff. Qed.
+Print Assumptions inline_cells_valid.
 
-Theorem inline_cells_valid_45 : forall id0 id1 id2 base lvals rvals start lr rr,
-  id_ok id0 -> id_ok id1 -> id_ok id2 ->
-  Forall (cell_valid 5) base -> Forall (cell_valid 5) lvals -> Forall (cell_valid 5) rvals ->
-  Forall (cell_valid 5) (make_inline_cell_conflict (id0, id1, id2) base lvals rvals start lr rr).
-Proof. exact inline_cells_valid_5. Qed.
-Print Assumptions inline_cells_valid_45.
+Theorem similar_insert_value_valid : forall k T key s lv rv src v, k <= 5 -> In T cell_type_defs ->
+  prop_schema (nb_defs k) T key = Some s -> validate (nb_defs k) F s lv = Some true ->
+  similar_value similar_insert_id key lv rv src = Some v -> validate (nb_defs k) F s v = Some true.
+Proof. exact similar_value_valid_local. Qed.
+Print Assumptions similar_insert_value_valid.
 
-Theorem inline_cells_refuted : exists k ids base lvals rvals, k < 5 /\
-  all_valid k cell_schema (base ++ lvals ++ rvals) = true /\
-  all_valid k cell_schema (make_inline_cell_conflict ids base lvals rvals 0 0 0) = false.
-Proof. exact inline_cells_refuted_always_ex. Qed.
-Print Assumptions inline_cells_refuted.
 
-Theorem similar_insert_cell_refuted :
-  all_valid 5 cell_schema [JObj (wit_code "cell1" "x = 1"); JObj (wit_code "cell2" "x = 2")] = true /\
-  exists c, similar_insert_cell (wit_code "cell1" "x = 1") (wit_code "cell2" "x = 2") [k_source; k_id] (of_ascii "<<< x = 1 === x = 2 >>>") = Some c /\
-            validate (nb_defs 5) F cell_schema c = Some false.
-Proof. exact similar_insert_refuted_dict. Qed.
-Print Assumptions similar_insert_cell_refuted.
-(* ==== end of BLOCK A ==== *)
 
-(* BLOCK B (the positive theorems that take over after the fix) is kept ready to paste in notes/C04-blockB.v *)
